@@ -257,6 +257,7 @@ atom("pandas_loc_at", PANDAS_STANDIN + "y1 = df.loc[1, 'value']\ny2 = df.iloc[0,
 atom("pandas_iterrows_index", PANDAS_STANDIN + "for i0, _ in df.iterrows():\n    note(i0)\nr = [i1 for i1, _ in df.iterrows()]\n", "r", ["pandas"])
 atom("pandas_iterrows_itertuples", PANDAS_STANDIN + "for _, row in df.iterrows():\n    note(row['value'])\n    note(row.at['w'])\n    note(row.iat[1])\n", "", ["pandas"])
 atom("numpy_matmul_comp", "import numpy as np\nm1 = np.array([[1, 2], [3, 4]])\nm2 = np.array([[5, 6], [7, 8]])\nu0 = np.array([[np.dot(a_, b_) for a_ in m1] for b_ in m2.T]).T\n", "u0.tolist()", ["numpy"])
+atom("pure_helper_stmt", "def pure0():\n    return 1\npure0()\nident(2)\nnote(pure0())\n")
 atom("missing_import_uncalled", "def uncalled():\n    return Path('x'), Sequence\nnote(uncalled.__doc__)\n")
 atom("implicit_defaultdict3", "r = {}\nfor w in xs:\n    if w not in r:\n        r[w] = []\n    r[w].append(w * 2)\n", "dict(r)")
 atom("implicit_defaultdict_set", "r = {}\nfor w in xs:\n    if w not in r:\n        r[w] = set()\n    r[w].add(w * 2)\n", "dict(r)")
